@@ -111,7 +111,9 @@ def ensure_coq(clean=False):
             rc, out = sh("coq_makefile -f _CoqProject -o Makefile", cwd=COQ, timeout=120)
             if rc != 0:
                 return False, out
-        rc, out = sh("make -j16", cwd=COQ, timeout=3000)
+        # -k: a broken proof must not keep the files that do not depend on it (the models the runners are
+        # extracted from) from being compiled
+        rc, out = sh("make -j16 -k", cwd=COQ, timeout=3000)
         return rc == 0, out
 
 
@@ -119,6 +121,9 @@ def ensure_runner(name="modelrun", extract="Extract/Extract.v", drivers=("util.m
     """Re-extract and rebuild an OCaml model runner when the Coq or ML sources changed.
     extract: path (relative to coq/) of the extraction file, which writes <mlmod>.ml/.mli in its cwd;
     drivers: files under ml/ compiled after the extracted modules, in order."""
+    # the extraction file is compiled against the .vo files: bring them up to date first (0.3 s when they
+    # are; a stale .vo after a model change made the extraction fail with "reference not found")
+    ensure_coq()
     with BuildLock():
         ml = BUILD / ("ml_" + name)
         ml.mkdir(parents=True, exist_ok=True)
